@@ -16,7 +16,7 @@ CHECKS = {
          "DESIGN.md §5 C20, §4 E7"),
  "C04": ("mc-sem", "translation_validation",
          "exhaustive program enumeration evaluated by a reference evaluator written from LANGUAGE.md and by wac; E2 provenance equality on the encoded bytes",
-         "Programs = a fixed prefix binding every kind of value the name-inference rules distinguish (imports by path / inline type / `as`, an instance from `new`, accesses, named accesses, a let alias) followed by one `new` whose argument list is the product of per-import supply modes (omitted, inferred via each bound name, named by identifier, named by string, mismatching) x spreads x `...` x argument order, every export form (plain, `as` id / string, spread, after a conflicting export, nested, last-segment access), 21 single-fault variants and nested `new`; ~15k programs quick, ~40k thorough. Each program's outcome class must equal the reference evaluator's (the diagnostic the reference names, or a composition), and for compositions the independent E2 reading of the bytes (instantiations with per-name argument provenance, exports, explicit imports) must equal the evaluator's.",
+         "Programs = a fixed prefix binding every kind of value the name-inference rules distinguish (imports by path / inline type / `as`, an instance from `new`, accesses, named accesses, a let alias) followed by one `new` whose argument list is the product of per-import supply modes (omitted, inferred via each bound name, named by identifier, named by string, mismatching) x spreads x `...` x argument order, every export form (plain, `as` id / string, spread, after a conflicting export, nested, last-segment access), 25 single-fault variants (incl. string names that are only the last segment or lack the version of an import name) and nested `new`; ~15k programs quick, ~40k thorough. Each program's outcome class must equal the reference evaluator's (the diagnostic the reference names, or a composition), and for compositions the independent E2 reading of the bytes (instantiations with per-name argument provenance, exports, explicit imports) must equal the evaluator's.",
          "Trusts the evaluator (DESIGN.md A.4) and the E2 reader. Library LibL covers plain names, interface paths with and without versions, ambiguous and unique last segments; type compatibility is the resource-free structural rule.",
          "DESIGN.md §5 C04, §4 E5, A.4"),
  "C05": ("mc-sem", "translation_validation",
